@@ -81,6 +81,8 @@ func ZZApply(n0, keepOld, n1, n2, failMode int) {
 		for id := range st.Shards {
 			total++
 			vAssert("id-below-generator", id < ns.ShardIdGenerator)
+			// C19: a shard exists only with a full ensemble; a shard whose ensemble cannot be chosen is refused
+			vAssert("every-shard-has-rf-servers", len(st.Shards[id].Ensemble) == int(st.ReplicationFactor) && st.ReplicationFactor >= 1)
 			if name != "old" {
 				vAssert("new-id-never-issued-before", id >= gen)
 				vAssert("added-listed", toAdd[id] == name)
